@@ -581,6 +581,24 @@ theorem stripIE_removes (pre op body post : Str) (hop : IsIEOpener op) (hbody : 
   simp only [List.isEmpty_cons, Bool.false_eq_true, if_false, List.foldl_cons, List.foldl_nil]
   rw [removeAll_single pre op body post hop hpre hpost]
 
+/-- **C02g (`findall`, explicitly).** The matches are found from left to right and do not overlap: nothing found
+    means no match starts anywhere; a first match `m` splits the text into `pre ++ m ++ post` with no match
+    starting inside `pre`, the pattern giving exactly `m` there, and the search continuing in `post`. -/
+theorem findall_reading (s : Str) :
+    (ieFindAll s = [] → NoMatchIn s) ∧
+    (∀ m ms, ieFindAll s = m :: ms → ∃ pre post, s = pre ++ m ++ post ∧ NoMatchBefore pre (m ++ post) ∧
+      ieMatchAt (m ++ post) = some m ∧ ms = ieFindAll post) :=
+  ⟨noMatchIn_of_findAll_nil s, fun m ms h => findAll_cons_split s m ms h⟩
+
+/-- **C02g (exactly one match, in general).** Whenever `findall` finds exactly one match — whatever else the
+    text contains: openers without `-->` on their line, a second copy of the match's text overlapping it — the
+    result is the text with that one occurrence cut out, up to the html-tag rule.  `stripIE_removes` is the
+    instance with explicit hypotheses on `pre`, the conditional and `post`. -/
+theorem stripIE_single_match (s m : Str) (h : ieFindAll s = [m]) :
+    ∃ pre post, s = pre ++ m ++ post ∧ NoMatchBefore pre (m ++ post) ∧ ieMatchAt (m ++ post) = some m ∧
+      NoMatchIn post ∧ stripIE s = addHtmlIfMissing (pre ++ post) :=
+  stripIE_of_single_match s m h
+
 /-- **C02g (a conditional comment token is dropped).** A token list in the serialiser's image with one comment
     token whose body starts with ws* `[` ws* `if` (one line; no further `-->` on the rest of that line in what
     follows; the marker nowhere else; the html-tag rule not firing): `feed` builds the document of the list
@@ -660,6 +678,13 @@ example : stripIE "<!DOCTYPE html><!--[if lt IE 9]><html class=\"ie\"><![endif]-
     = addHtmlIfMissing ("<!DOCTYPE html>".toList ++ "\n<p>x</p></html>".toList) :=
   stripIE_removes "<!DOCTYPE html>".toList "<!--[if".toList " lt IE 9]><html class=\"ie\"><![endif]".toList
     "\n<p>x</p></html>".toList ⟨[], [], by simp, by simp, rfl⟩ (by decide) (by decide) (by decide) (by decide)
+
+/-- one match although an opener without `-->` on its line stands in front and a near miss behind
+    (`stripIE_removes` does not apply: `hasIEMarker pre = true`; `stripIE_single_match` does) -/
+example : ieFindAll "<!--[if IE]>\n<p>a</p><!--[if IE 6]>b<![endif]-->c\n<!--[IF]-->".toList
+    = ["<!--[if IE 6]>b<![endif]-->".toList] := by decide
+example : stripIE "<!--[if IE]>\n<p>a</p><!--[if IE 6]>b<![endif]-->c\n<!--[IF]-->".toList
+    = "<!--[if IE]>\n<p>a</p>c\n<!--[IF]-->".toList := by decide
 
 /-- `.*` is greedy: a later `-->` on the same line belongs to the match (`hline` is needed) -/
 example : stripIE "a<!--[if IE]>b<![endif]--> c <!-- d --> e\nf".toList = "a e\nf".toList := by decide
